@@ -50,9 +50,11 @@ package netpoll
 // Trigger: the task is queued for the loop that owns the poller and runs there later, once (property C03, assumed).
 // trigprio: priority class of the request queued last (bookkeeping ghost): requests of one class are executed in issue order.
 //@ ghost log trigprio int
+//@ ghost log trigpoller Ref
 //@ func (p *Poller) Trigger(priority queue.EventPriority, fn queue.Func, param any) (err error)
 //@   noverify lock-free queue and eventfd wake-up protocol (cross-goroutine, see C03)
 //@   requires p != nil
-//@   modifies trigprio
+//@   modifies trigprio, trigpoller
 //@   ghostdef trigprio := priority
+//@   ghostdef trigpoller := p
 //@   ensures err != errorx.ErrEngineShutdown
